@@ -547,6 +547,12 @@ class DependencyTools():
             else:
                 # This is reached only if there is more than one subscript in
                 # which one or several variables are used
+                if len(set_of_vars) > 1:
+                    # Coupled subscripts that depend on several loop
+                    # variables, e.g. a(i+j, i+j): different (i, j) pairs
+                    # can access the same element. Assume that there will
+                    # be dependencies (as for a single subscript above).
+                    return False
                 indep = self._independent_multi_subscript(loop_var,
                                                           write_access,
                                                           other_access,
